@@ -251,6 +251,10 @@ fn parse(text: &str, allow_substvar: bool) -> Parse {
                             self.bump();
                             break;
                         }
+                        None => {
+                            self.error("Expected architecture name or '!' or ']'".to_string());
+                            break;
+                        }
                         _ => {
                             self.error("Expected architecture name or '!' or ']'".to_string());
                         }
